@@ -29,7 +29,7 @@ import (
 	"github.com/dolthub/dolt/go/zzverif/vh"
 )
 
-const c02Rule = "2-4 separately opened stores on one directory (file-manifest stores that may all write, memtable 4KiB/64KiB/1MiB (every chunk is smaller than the memtable), manifest pre-created or not; or one journal writer plus read-only journal openers) run 8-30 (journal: 8-16) drawn steps: put(1-4 chunks), commit(newRoot in {fresh chunk put on this handle, an older root, ==last, never-put address}, last in {handle's cached root, true persisted root, older root, zero}), rebase, close+reopen, fresh open+check, ConjoinTableFiles of 2..n upstream tables on a possibly stale file-manifest handle, and (conjoin threshold maxTables in {2,3,4,1024}) the automatic conjoin a commit starts, parked at the repository's ConjoinAll test hook and landed at a drawn later step. Oracle: a conjoin never changes the persisted root or any committed chunk (fresh open after it lands); sequential CAS register (root, committed chunk set); commit==true requires last==persisted root just before; after every commit a fresh open must see the model root and read every committed chunk byte for byte; false/error must leave the fresh view unchanged; a handle nobody has published past must succeed when last==persisted root; Root() of a handle is always a root published at or after its last sync. Non-trivial: the history has >=1 failed CAS (handle used its own cached root as last) caused by another handle's successful publish, and >=1 close+reopen between two successful commits; distinct by the hash of (configuration, step sequence with outcomes)."
+const c02Rule = "2-4 separately opened stores on one directory (file-manifest stores that may all write, memtable 4KiB/64KiB/1MiB (every chunk is smaller than the memtable), manifest pre-created or not; or one journal writer plus read-only journal openers) run 8-30 (journal: 8-16) drawn steps: put(1-4 chunks), commit(newRoot in {fresh chunk put on this handle, an older root, ==last, never-put address}, last in {handle's cached root, true persisted root, older root, zero}), rebase, close+reopen, fresh open+check, ConjoinTableFiles of 2..n upstream tables on a possibly stale file-manifest handle, and (conjoin threshold maxTables in {2,3,4,1024}; parked conjoins still in flight are landed before a close and before the final fresh open) the automatic conjoin a commit starts, parked at the repository's ConjoinAll test hook and landed at a drawn later step. Oracle: a conjoin never changes the persisted root or any committed chunk (fresh open after it lands); sequential CAS register (root, committed chunk set); commit==true requires last==persisted root just before; after every commit a fresh open must see the model root and read every committed chunk byte for byte; false/error must leave the fresh view unchanged; a handle nobody has published past must succeed when last==persisted root; Root() of a handle is always a root published at or after its last sync. Non-trivial: the history has >=1 failed CAS (handle used its own cached root as last) caused by another handle's successful publish, and >=1 close+reopen between two successful commits; distinct by the hash of (configuration, step sequence with outcomes)."
 
 type c02Version struct {
 	root hash.Hash
@@ -149,6 +149,10 @@ func (c *c02Case) conjoinPending(h *c02Handle) bool {
 func (c *c02Case) release(h *c02Handle) bool {
 	if !c.conjoinPending(h) {
 		return false
+	}
+	c.classes["auto_conjoin_released"] = true
+	if h.synced < c.m.cur() {
+		c.classes["auto_conjoin_released_on_stale_handle"] = true
 	}
 	deadline := time.Now().Add(60 * time.Second)
 	for c.conjoinPending(h) {
@@ -453,7 +457,7 @@ func c02RunCase(t *testing.T, rt *rapid.T, rec *vh.Recorder) {
 			}
 		} else {
 			h.memSz = rapid.SampledFrom([]uint64{1 << 12, 1 << 16, 1 << 20}).Draw(rt, fmt.Sprintf("memSz%d", i))
-			h.maxTables = rapid.SampledFrom([]int{2, 3, 4, 1024}).Draw(rt, fmt.Sprintf("maxTables%d", i))
+			h.maxTables = rapid.SampledFrom([]int{2, 2, 3, 4, 1024}).Draw(rt, fmt.Sprintf("maxTables%d", i))
 		}
 		c.hs = append(c.hs, h)
 		c.open(h)
